@@ -316,6 +316,9 @@ def run(P, R, L):
     pair4(P, R, L)
     ord11(P, R, L)
     ord12(P, R, L)
+    from . import common as K
+    R.clause("ORD-17", "a manual compaction request observed by a worker run is always consumed (done written, slot cleared)")
+    K.ord17_manual_slot(P, R, L)
     R.not_decided += ["that the background thread never panics (value-level reachability of unwrap/assert/index sites)",
                       "progress of data-dependent loops", "channel capacity / blocking send in schedule_task"]
     R.assumptions += ["one Mutex<GuardedDbFields> instance per database (class-level = instance-level)",
